@@ -10,6 +10,7 @@ assignment names each column exactly once, every encoder succeeds on its cell, r
 exist.  `eagerD … = .ok none` means a row predicate dropped the row.
 -/
 import CobaVerif.Lemmas.C13
+import CobaVerif.Generated.C13Methods
 
 namespace Coba.C13
 
@@ -351,5 +352,42 @@ theorem first_dict_counterexample :
     (∃ r1 r2, applyS1 (.label (.pos 1) none) (.plain []) (.head (.plain [(.pos 1, .int 5)]) [(.name "b", .pos 1)] [(.pos 1, .name "b")]) = .ok (some r1) ∧
       applyS (.label (.pos 1) none) (.head (.plain [(.pos 1, .int 5)]) [(.name "b", .pos 1)] [(.pos 1, .name "b")]) = .ok (some r2) ∧
       r1.labelOf.map (·.2.1) = some (.pos 1) ∧ r2.labelOf.map (·.2.1) = some (.name "b")) := first_dict_cex'
+
+/-! ## Phase 4: exception classes, and the protocol of the row-view classes -/
+
+/-- every access a plain list answers or refuses by itself (position, iteration, copy, len, ==, at any depth of copies):
+the lazy dense row raises exactly when the eager list does, and with the same exception CLASS -/
+theorem lazy_error_eq_eager_error (b : DBase) (stages : List Stage) (e0 e : EagerD) (r : DRow)
+    (hb : eagerBaseD b = .ok e0) (he : eagerD stages e0 = .ok (some e))
+    (hr : buildD stages (baseD b) = .ok (some r)) (a : Acc) (ha : a.listAccess = true) :
+    errD r a = eagerErrD e a := lazy_error_eq_eager_error' (dense_ref' b stages e0 e r hb he hr) a ha
+
+/-- `row[i]`: nothing is raised inside the row, an IndexError (not a KeyError / TypeError / ValueError) at and beyond its end -/
+theorem index_error_class (b : DBase) (stages : List Stage) (e0 e : EagerD) (r : DRow)
+    (hb : eagerBaseD b = .ok e0) (he : eagerD stages e0 = .ok (some e))
+    (hr : buildD stages (baseD b) = .ok (some r)) (i : Nat) :
+    (i < e.cells.length → errD r (.pos i) = none) ∧ (e.cells.length ≤ i → errD r (.pos i) = some .indexError) :=
+  pos_error_class' (dense_ref' b stages e0 e r hb he hr) i
+
+/-- sparse: `row[k]` for a key the eager dict lacks is a KeyError, for a key it has nothing is raised; keys / items / len / copy / ==
+never raise — as for the plain dict (by-key access outside the hidden raw keys of a header-mapped base, as in `sparse_get`) -/
+theorem lazy_error_eq_eager_error_sparse (b : SBase) (stages : List Stage) (hs : leakSafe (!(baseS b).leak.isEmpty) stages = true) (e0 e : EagerS) (r : SRow)
+    (he0 : eagerBaseS b = .ok e0) (he : eagerS stages e0 = .ok (some e))
+    (hr : buildS stages (baseS b) = .ok (some r)) (a : Acc) (ha : a.dictAccess (· ∉ r.leak)) :
+    errS r a = eagerErrS e a := lazy_error_eq_eager_error_sparse' (sparse_ref' b stages hs e0 e r he0 he hr).1 a ha
+
+/-- non-vacuity: HeadRows + DropRows over a 3-column list; position 2 is beyond the end of the 2-column result: IndexError on both sides -/
+example : (((buildD [.headNames ["a", "b", "c"], .drop [.name "b"] none] (baseD (.plain [.int 1, .int 2, .int 3]))).toOption.bind id).map
+      (fun r => (errD r (.pos 2), errD r (.clone (.pos 1))))) = some (some .indexError, none) := by decide
+
+/-- translator obligation: the public methods / properties the row-view classes of coba/primitives.py and coba/pipes/rows.py define
+(extracted from the current source on every run) are exactly the protocol the model's access language covers.  A new public accessor
+on a row view (or a removed one) breaks this proof. -/
+theorem methods_covered :
+    Coba.C13.Generated.extracted = true ∧ Coba.C13.Generated.rowViewMethods = coveredMethods := by decide
+
+/-- every single class stays inside the protocol -/
+theorem class_methods_covered :
+    Coba.C13.Generated.rowViewClasses.all (fun c => allCovered c.2) = true := by decide
 
 end Coba.C13
